@@ -588,27 +588,47 @@ pub fn run(run: &Run) {
         let n = run.opts.size(3_000, 60_000);
         run.parallel("large", n, |i, l| {
             let mut r = Rng::derive(seed, "c13-large", i);
-            let (d, default) = match i % 6 {
+            let (d, default) = match i % 12 {
                 0 => (16u16, false),
                 1 => (64, false),
                 2 => (128, false),
                 3 => (129, false),
                 4 => (200, false),
+                5 => (255, false),
+                6 => (256, false),
+                7 => (257, false),
+                8 => (300, false),
+                9 => (513, false),
+                10 => (1000, false),
                 _ => (128, true),
             };
             let depth = (d as i64 + r.below(3) as i64 - 1) as usize;
-            let e = random_shape(env, &mut r, depth);
-            let e = match i % 4 {
-                0 => e,
-                _ => placements(env, &e)[(i % 3) as usize].clone(),
-            }
-            .normalize();
-            let text = print_filter(env, &e, Some(Rng::derive(seed, "c13-largep", i)));
-            check_limit(run, l, "large", i, &eng, &e, &text, if default { None } else { Some(d) });
-            run.distinct(hash_str(&text));
-            if i % 211 == 0 {
-                run.sample("large", 2, || json!({"limit": d, "default_parser": default, "nesting": nesting(&e), "text_len": text.len()}));
-            }
+            // recursion is bounded by d, not by a constant: whoever configures
+            // d = 1000 provides the stack for it (and so does this harness, whose
+            // own tree walks recurse as deep)
+            let eng = &eng;
+            std::thread::scope(|sc| {
+                let h = std::thread::Builder::new().stack_size(if d > 200 { 512 << 20 } else { 16 << 20 }).spawn_scoped(sc, || {
+                    let e = random_shape(env, &mut r, depth);
+                    let e = match i % 4 {
+                        0 => e,
+                        _ => placements(env, &e)[(i % 3) as usize].clone(),
+                    }
+                    .normalize();
+                    let text = print_filter(env, &e, Some(Rng::derive(seed, "c13-largep", i)));
+                    check_limit(run, l, "large", i, eng, &e, &text, if default { None } else { Some(d) });
+                    run.distinct(hash_str(&text));
+                    if i % 211 == 0 {
+                        run.sample("large", 2, || json!({"limit": d, "default_parser": default, "nesting": nesting(&e), "text_len": text.len()}));
+                    }
+                });
+                match h {
+                    Ok(h) => {
+                        let _ = h.join();
+                    }
+                    Err(e) => run.inconclusive(format!("cannot spawn a large-stack thread: {}", e)),
+                }
+            });
         });
     }
 
